@@ -1,3 +1,272 @@
 import BoltonsVerif.C16.Model
+/-
+C16 — helper lemmas for Props.lean (core Lean only).
+-/
 namespace C16
+
+/-! ## character-class facts (evaluated on the generated tables) -/
+
+theorem sepCps_space : Gen.sepCps.all (inRanges Gen.spaceRanges) = true := by decide
+theorem sepCps_not_digit : Gen.sepCps.all (fun n => !inRanges Gen.digitRanges n) = true := by decide
+
+theorem isSpace_of_isSep {c : Char} (h : isSep c = true) : isSpace c = true := by
+  unfold isSep at h
+  have := List.all_eq_true.mp sepCps_space c.toNat (by simpa using h)
+  exact this
+
+theorem notSep_of_notSpace {c : Char} (h : notSpace c = true) : notSep c = true := by
+  unfold notSpace at h; unfold notSep
+  cases hs : isSep c with
+  | false => rfl
+  | true => rw [isSpace_of_isSep hs] at h; simp at h
+
+theorem notSep_of_isDigit {c : Char} (h : isDigit c = true) : notSep c = true := by
+  unfold notSep
+  cases hs : isSep c with
+  | false => rfl
+  | true =>
+    unfold isSep at hs
+    have := List.all_eq_true.mp sepCps_not_digit c.toNat (by simpa using hs)
+    unfold isDigit at h
+    simp [h] at this
+
+theorem isSpace_space : isSpace ' ' = true := by decide
+theorem isSep_nl : isSep '\n' = true := by decide
+theorem isSep_cr : isSep '\r' = true := by decide
+theorem isSpace_nl : isSpace '\n' = true := by decide
+theorem isDigit_quote : isDigit '"' = false := by decide
+theorem isDigit_comma : isDigit ',' = false := by decide
+
+theorem notSep_of_underline {c : Char} (h : isUnderlineChar c = true) : notSep c = true := by
+  unfold isUnderlineChar at h
+  simp at h
+  rcases h with (h | h) | h <;> subst h <;> decide
+
+/-! ## strip -/
+
+theorem lstrip_of_first {s : Str} (h : firstNotSpace s = true) : lstrip s = s := by
+  cases s with
+  | nil => simp [firstNotSpace] at h
+  | cons c cs =>
+    simp only [firstNotSpace, notSpace, Bool.not_eq_eq_eq_not, Bool.not_true] at h
+    simp [lstrip, List.dropWhile, h]
+
+theorem lstrip_space_cons (s : Str) : lstrip (' ' :: s) = lstrip s := by
+  simp [lstrip, List.dropWhile, isSpace_space]
+
+theorem rstrip_of_last {s : Str} (h : lastNotSpace s = true) : rstrip s = s := by
+  unfold lastNotSpace at h
+  unfold rstrip
+  have := lstrip_of_first h
+  unfold lstrip at this
+  rw [this, List.reverse_reverse]
+
+theorem strip_of_first_last {s : Str} (h1 : firstNotSpace s = true) (h2 : lastNotSpace s = true) :
+    strip s = s := by
+  unfold strip; rw [lstrip_of_first h1, rstrip_of_last h2]
+
+theorem lastNotSpace_append {a b : Str} (h : lastNotSpace b = true) : lastNotSpace (a ++ b) = true := by
+  unfold lastNotSpace at *
+  rw [List.reverse_append]
+  cases hb : b.reverse with
+  | nil => rw [hb] at h; simp [firstNotSpace] at h
+  | cons c cs => rw [hb] at h; simpa [firstNotSpace] using h
+
+theorem lastNotSpace_ne_nil {s : Str} (h : lastNotSpace s = true) : s ≠ [] := by
+  intro hs; subst hs; simp [lastNotSpace, firstNotSpace] at h
+
+theorem firstNotSpace_append {a b : Str} (h : firstNotSpace a = true) : firstNotSpace (a ++ b) = true := by
+  cases a with
+  | nil => simp [firstNotSpace] at h
+  | cons c cs => simpa [firstNotSpace] using h
+
+theorem all_of_dropWhile_nil {p : Char → Bool} {x : Str} (h : x.dropWhile p = []) : x.all p = true := by
+  induction x with
+  | nil => rfl
+  | cons c cs ih =>
+    simp only [List.dropWhile_cons] at h
+    split at h
+    · rename_i hc; simp [hc, ih h]
+    · simp at h
+
+theorem dropWhile_append_all {p : Char → Bool} {x y : Str} (h : x.all p = true) :
+    (x ++ y).dropWhile p = y.dropWhile p := by
+  induction x with
+  | nil => rfl
+  | cons c cs ih =>
+    simp only [List.all_cons, Bool.and_eq_true] at h
+    simp [List.dropWhile, h.1, ih h.2]
+
+theorem dropWhile_append_stop {p : Char → Bool} {x y : Str} (h : x.dropWhile p ≠ []) :
+    (x ++ y).dropWhile p = x.dropWhile p ++ y := by
+  induction x with
+  | nil => simp at h
+  | cons c cs ih =>
+    simp only [List.cons_append, List.dropWhile_cons] at h ⊢
+    split
+    · rename_i hc; simp only [hc, ↓reduceIte] at h; exact ih h
+    · rfl
+
+/-- stripping on the right does not reach into a prefix whose last character is not a space -/
+theorem rstrip_append_left {a h : Str} (ha : lastNotSpace a = true) : rstrip (a ++ h) = a ++ rstrip h := by
+  unfold rstrip
+  rw [List.reverse_append]
+  by_cases hh : h.reverse.dropWhile isSpace = []
+  · have hall : h.reverse.all isSpace = true := all_of_dropWhile_nil hh
+    rw [dropWhile_append_all hall, hh]
+    have := rstrip_of_last ha
+    unfold rstrip at this
+    simp [this]
+  · rw [dropWhile_append_stop hh]; simp
+
+theorem rstrip_prefix (h : Str) : rstrip h <+: h := by
+  unfold rstrip
+  have := List.dropWhile_suffix (l := h.reverse) isSpace
+  have := List.reverse_prefix.mpr this
+  simpa using this
+
+/-! ## prefix matching and the frame-line scanner -/
+
+theorem dropPrefix?_append (p s : Str) : dropPrefix? p (p ++ s) = some s := by
+  induction p with
+  | nil => rfl
+  | cons c cs ih => simp [dropPrefix?, ih]
+
+theorem dropPrefix?_sound {p s r : Str} (h : dropPrefix? p s = some r) : s = p ++ r := by
+  induction p generalizing s with
+  | nil => simp [dropPrefix?] at h; simp [h]
+  | cons c cs ih =>
+    cases s with
+    | nil => simp [dropPrefix?] at h
+    | cons d ds =>
+      simp only [dropPrefix?] at h
+      split at h
+      · rename_i hcd; subst hcd; rw [ih h]; rfl
+      · simp at h
+
+theorem dropPrefix?_none_of_head {p s : Str} {c : Char} (hp : p.head? = some c) (hs : s.head? ≠ some c) :
+    dropPrefix? p s = none := by
+  cases p with
+  | nil => simp at hp
+  | cons a as =>
+    cases s with
+    | nil => rfl
+    | cons d ds =>
+      simp at hp hs
+      subst hp
+      simp [dropPrefix?, Ne.symm hs]
+
+theorem takeWhile_append_stop {p : Char → Bool} {l r : Str} {c : Char} (hl : l.all p = true) (hc : p c = false) :
+    (l ++ c :: r).takeWhile p = l := by
+  induction l with
+  | nil => simp [List.takeWhile, hc]
+  | cons a as ih =>
+    simp only [List.all_cons, Bool.and_eq_true] at hl
+    simp [List.takeWhile, hl.1, ih hl.2]
+
+theorem dropWhile_append_stop' {p : Char → Bool} {l r : Str} {c : Char} (hl : l.all p = true) (hc : p c = false) :
+    (l ++ c :: r).dropWhile p = c :: r := by
+  rw [dropWhile_append_all hl]; simp [List.dropWhile, hc]
+
+theorem tailMatch_lit {ln fn : Str} (h1 : ln ≠ []) (h2 : ln.all isDigit = true) (h3 : fn ≠ []) :
+    tailMatch (litB ++ (ln ++ (litC ++ fn))) = some (ln, fn) := by
+  unfold tailMatch
+  rw [dropPrefix?_append]
+  have hc : litC ++ fn = ',' :: (" in ".toList ++ fn) := rfl
+  simp only
+  rw [hc, takeWhile_append_stop h2 isDigit_comma, dropWhile_append_stop' h2 isDigit_comma, ← hc,
+    dropPrefix?_append]
+  simp [h1, h3]
+
+theorem tailMatchSE_lit {ln r : Str} {c : Char} (h1 : ln ≠ []) (h2 : ln.all isDigit = true) (hc : isDigit c = false) :
+    tailMatchSE (litB ++ (ln ++ c :: r)) = some (ln, []) := by
+  unfold tailMatchSE
+  rw [dropPrefix?_append]
+  simp only
+  rw [takeWhile_append_stop h2 hc]
+  simp [h1]
+
+theorem tailMatch_none_of_head {s : Str} (h : s.head? ≠ some '"') : tailMatch s = none := by
+  unfold tailMatch
+  rw [dropPrefix?_none_of_head (p := litB) (c := '"') rfl h]
+
+theorem tailMatch_sound {s ln fn : Str} (h : tailMatch s = some (ln, fn)) :
+    s = litB ++ (ln ++ (litC ++ fn)) ∧ ln ≠ [] ∧ ln.all isDigit = true ∧ fn ≠ [] := by
+  unfold tailMatch at h
+  split at h
+  · simp at h
+  · rename_i r hr
+    have hs := dropPrefix?_sound hr
+    split at h
+    · simp at h
+    · rename_i hne
+      split at h
+      · simp at h
+      · rename_i fn' hfn
+        have h2 := dropPrefix?_sound hfn
+        split at h
+        · simp at h
+        · rename_i hfne
+          simp only [Option.some.injEq, Prod.mk.injEq] at h
+          obtain ⟨rfl, rfl⟩ := h
+          refine ⟨?_, hne, ?_, hfne⟩
+          · rw [hs, ← h2, List.takeWhile_append_dropWhile]
+          · simp [List.all_eq_true]
+
+theorem findLast_none_of_noTail {s : Str} (h : noTail s = true) : findLast tailMatch s = none := by
+  induction s with
+  | nil => rfl
+  | cons c cs ih =>
+    simp only [noTail, Bool.and_eq_true, Option.isNone_iff_eq_none] at h
+    simp [findLast, ih h.2, h.1]
+
+theorem findLast_pre {tm : Str → Option (Str × Str)} {s : Str} {x : Str × Str} (pre : Str)
+    (h : findLast tm s = some ([], x)) : findLast tm (pre ++ s) = some (pre, x) := by
+  induction pre with
+  | nil => simpa using h
+  | cons c cs ih => simp [findLast, ih]
+
+theorem findLast_here {tm : Str → Option (Str × Str)} {c : Char} {cs : Str} {x : Str × Str}
+    (h1 : tm (c :: cs) = some x) (h2 : findLast tm cs = none) : findLast tm (c :: cs) = some ([], x) := by
+  simp [findLast, h1, h2]
+
+theorem noTail_append_of_noQuote {a b : Str} (ha : ∀ c ∈ a, c ≠ '"') (hb : noTail b = true) :
+    noTail (a ++ b) = true := by
+  induction a with
+  | nil => simpa using hb
+  | cons c cs ih =>
+    have hc : c ≠ '"' := ha c (by simp)
+    have : tailMatch (c :: (cs ++ b)) = none := tailMatch_none_of_head (by simp [hc])
+    simp [noTail, this, ih (fun d hd => ha d (by simp [hd]))]
+
+theorem digit_ne_quote {c : Char} (h : isDigit c = true) : c ≠ '"' := by
+  intro hc; subst hc; rw [isDigit_quote] at h; simp at h
+
+/-- the scanner recovers the three groups of `_frame_re` from a rendered frame line -/
+theorem matchFrame_render {file ln fn : Str} (hf : file ≠ []) (h1 : ln ≠ []) (h2 : ln.all isDigit = true)
+    (h3 : fn ≠ []) (h4 : noTail fn = true) :
+    matchFrame (litA ++ (file ++ (litB ++ (ln ++ (litC ++ fn))))) = some ⟨file, ln, fn, []⟩ := by
+  unfold matchFrame matchWith
+  rw [dropPrefix?_append]
+  have htm := tailMatch_lit h1 h2 h3
+  have hrest : findLast tailMatch (", line ".toList ++ (ln ++ (litC ++ fn))) = none := by
+    apply findLast_none_of_noTail
+    rw [← List.append_assoc, ← List.append_assoc]
+    apply noTail_append_of_noQuote _ h4
+    intro c hc
+    simp only [List.mem_append] at hc
+    rcases hc with (hc | hc) | hc
+    · revert hc; revert c; decide
+    · exact digit_ne_quote (List.all_eq_true.mp h2 c hc)
+    · revert hc; revert c; decide
+  have hhere : findLast tailMatch (litB ++ (ln ++ (litC ++ fn))) = some ([], (ln, fn)) :=
+    findLast_here (c := '"') htm hrest
+  simp only
+  rw [findLast_pre file hhere]
+  simp [hf]
+
+theorem matchWith_none_of_prefix {tm : Str → Option (Str × Str)} {l : Str} (h : dropPrefix? litA l = none) :
+    matchWith tm l = none := by
+  unfold matchWith; rw [h]
+
 end C16
